@@ -37,6 +37,15 @@ theorem resolveCoordsLen_total (d : List Nat) (hb : Bytes d) (total : Nat) (ht :
   · exact Or.inl h
   · exact Or.inr ⟨l, h1, h2, h3, h4, h5⟩
 
+/-- **the two transcriptions of `resolve_coords_len` agree**: the cursor model with explicit traps used
+here and the list-tail value model of Model/Glyf.lean (check C09, `Glyf.resolveCoordsLen`) return the same
+`Ok` lengths, and an `Err` here is a `none` there — for all bytes and point counts. -/
+theorem resolveCoordsLen_eq_glyf (d : List Nat) (hb : Bytes d) (total : Nat) (ht : total ≤ 65535) :
+    Glyf.resolveCoordsLen d 0 total 0 0 = lensOpt (resolveCoordsLen d total) := by
+  have := rclLoop_eq_glyf d hb total ht (d.length + 1) ⟨Cur.init, total, 0, 0⟩ (rinv_init d total)
+    (by simp [Cur.init])
+  simpa [Cur.init, resolveCoordsLen] using this
+
 /-- **`points_impl` never panics and splits inside the data**: the unchecked sum
 `flags + x_coords + y_coords` does not overflow, both `split_at` positions are in range, and the three
 slices handed to `PointIter::new` are consecutive parts of `glyph_data()` of the resolved lengths. -/
